@@ -46,6 +46,9 @@ def main():
             continue
         if a.prop and a.prop not in m["props"]:
             continue
+        if m.get("equivalent") and not only:
+            print(f"{m['id']:28s} skipped (equivalent: {m['equivalent'][:70]}...)")
+            continue
         root = tempfile.mkdtemp(prefix="hvmut_")
         try:
             for d in ("httpcore", "scripts", "tests"):
